@@ -4,15 +4,19 @@ M: TLC explores the direction table of DirectSamplingContour._compute (spec/Dire
    for all 19 admissible deg_step and M = N + 2 generated angles; the table with M = N + 1
    (what exact arithmetic - and float arange for 15 of the 19 steps - yields) must violate
    NoSelfMeet / FullCircleOnce, an index shift must violate AllAdjacent.
-R: TLC (spec/DirectSamplingGen.tla) enumerates deg_step x sample class x alpha class; the
-   driver supplies seeded data for the class and runs the real DirectSamplingContour.
+R: TLC (spec/DirectSamplingGen.tla) enumerates deg_step x sample class x alpha class with plain
+   Python arguments, and the TYPE of alpha (float, np.float64, np.float32) x the type of deg_step
+   (int, float, np.float32) x the container of a supplied sample (ndarray, DataFrame, list of
+   rows); the driver supplies seeded data for the class and runs the real DirectSamplingContour.
 V: per contour one "contour" record and one "edge" record per polygon edge, judged by
    spec/Trace_C03.tla (StepExact, EdgeOnTangent, FractionBeyond, FullCircleOnce, DefaultN,
    GivenN, SampleKept, FiniteVertices).
 """
+import copy
 import math
 import warnings
 import zlib
+from fractions import Fraction
 
 import numpy as np
 
@@ -30,8 +34,14 @@ CLAMP = 2_000_000_000
 # seeded data per class
 
 
-def alpha_of(acls, rng, cls, quick):
-    """alpha = a / b exactly (both ints)."""
+def alpha_of(acls, rng, cls, quick, round_quotient=False):
+    """alpha = a / b exactly (both ints).  round_quotient: 100 / (a / b) is a whole number, so that
+    int(100 / alpha) of the single-precision neighbour of a / b depends on the precision of the division."""
+    if round_quotient:
+        lo, hi, b = {"tiny": (5 if quick else 1, 10, 10000), "small": (10, 100, 10000),
+                     "mid": (10, 100, 1000)}.get(acls, (100, 300, 1000))
+        div = [a for a in range(lo, hi + 1) if (100 * b) % a == 0]
+        return div[int(rng.integers(0, len(div)))], b
     if acls == "tiny":      # [1e-4, 1e-3]
         a, b = int(rng.integers(1, 11)), 10000
         if cls.endswith("default_n") and quick:
@@ -43,6 +53,49 @@ def alpha_of(acls, rng, cls, quick):
     else:                   # [0.1, 0.3]
         a, b = int(rng.integers(100, 301)), 1000
     return a, b
+
+
+PLAIN = dict(atype="float", stype="int", cont="ndarray")
+
+
+def alpha_object(case):
+    """The alpha handed to the code.  np.float32(a / b) is ANOTHER real number than a / b (off by up
+    to 6e-8 relative); where it falls outside the quantified range [1e-4, 0.3] the neighbouring
+    single-precision number inside the range is taken."""
+    v = case["a"] / case["b"]
+    t = case.get("atype", "float")
+    if t == "float64":
+        return np.float64(v)
+    if t == "float32":
+        x = np.float32(v)
+        if float(x) > 0.3:
+            x = np.nextafter(x, np.float32(0))
+        if float(x) < 1e-4:
+            x = np.nextafter(x, np.float32(1))
+        return x
+    return v
+
+
+def step_object(case):
+    t = case.get("stype", "int")
+    d = case["deg_step"]
+    return np.float32(d) if t == "float32" else float(d) if t == "float" else int(d)
+
+
+def contain(sample, cont):
+    if cont == "dataframe":
+        import pandas as pd
+        return pd.DataFrame(sample, columns=["hs", "tz"])
+    if cont == "list":
+        return sample.tolist()
+    return sample
+
+
+def exact_refs(alpha, n):
+    """floor / ceiling of alpha (n-1) and floor(100 / alpha) for the real number alpha (a double)"""
+    fa = Fraction(float(alpha))
+    x = fa * (n - 1)
+    return dict(kmin=int(x.__floor__()), kmax=int(x.__ceil__()), nref=int((100 / fa).__floor__()))
 
 
 class StubModel:
@@ -136,11 +189,14 @@ def pick_n(rng, a, b, quick):
 
 def execute(vc, case, quick):
     """-> dict(coords, sample, exc, defaultn, givenn, samplekept)"""
-    rng = np.random.default_rng([case["seed"], case["deg_step"], zlib.crc32((case["cls"] + case["acls"]).encode())])
+    types = "".join(case.get(k, v) for k, v in PLAIN.items())
+    tag = case["cls"] + case["acls"] + (types if types != "".join(PLAIN.values()) else "")
+    rng = np.random.default_rng([case["seed"], case["deg_step"], zlib.crc32(tag.encode())])
     cls = case["cls"]
     a, b = case["a"], case["b"]
-    alpha = a / b
-    out = dict(exc="", defaultn=False, givenn=0, samplekept=True)
+    alpha = alpha_object(case)
+    deg_step = step_object(case)
+    out = dict(exc="", defaultn=False, givenn=0, samplekept=True, alpha=float(alpha))
     np.random.seed(case["seed"] % (2**32))
     with warnings.catch_warnings():
         warnings.simplefilter("ignore")
@@ -149,14 +205,14 @@ def execute(vc, case, quick):
                 model = real_model(vc, rng)
                 if case.get("given_n"):
                     out["givenn"] = int(case["given_n"])
-                    c = vc.DirectSamplingContour(model, alpha, n=out["givenn"], deg_step=case["deg_step"])
+                    c = vc.DirectSamplingContour(model, alpha, n=out["givenn"], deg_step=deg_step)
                 else:
                     out["defaultn"] = True
-                    c = vc.DirectSamplingContour(model, alpha, deg_step=case["deg_step"])
+                    c = vc.DirectSamplingContour(model, alpha, deg_step=deg_step)
             elif cls == "stub_default_n":
                 model = StubModel(case["seed"])
                 out["defaultn"] = True
-                c = vc.DirectSamplingContour(model, alpha, deg_step=case["deg_step"])
+                c = vc.DirectSamplingContour(model, alpha, deg_step=deg_step)
                 if model.requested != [len(c.sample)]:
                     out["samplekept"] = False
             else:
@@ -167,11 +223,15 @@ def execute(vc, case, quick):
                 else:
                     model = StubModel(0)
                     sample = cloud(cls, rng, n)
-                keep = sample.copy()
-                c = vc.DirectSamplingContour(model, alpha, deg_step=case["deg_step"], sample=sample)
-                out["samplekept"] = bool(c.sample is sample and np.array_equal(sample, keep))
+                sample = contain(sample, case.get("cont", "ndarray"))
+                keep = copy.deepcopy(sample)
+                out["sample"] = np.asarray(keep, dtype=float)
+                c = vc.DirectSamplingContour(model, alpha, deg_step=deg_step, sample=sample)
+                out["samplekept"] = bool(c.sample is sample and type(sample) is type(keep)
+                                         and np.array_equal(np.asarray(sample), np.asarray(keep)))
             out["coords"] = np.asarray(c.coordinates, dtype=float)
-            out["sample"] = np.asarray(c.sample, dtype=float)
+            if "sample" not in out:      # drawn inside; a supplied sample is judged as it was handed over
+                out["sample"] = np.asarray(c.sample, dtype=float)
         except Exception as e:  # noqa
             out["exc"] = f"{type(e).__name__}: {e}"[:200]
     return out
@@ -251,17 +311,18 @@ def _collinear(P):
     return bool(np.all(np.abs(ux * uy[0] - uy * ux[0]) < 1e-9))
 
 
-def measure(coords, sample, a, b, step):
+def measure(coords, sample, alpha, kmin, kmax, step):
     """Per long edge: outward normal (micro-degrees), offsets of both end points, reference
     quantile, counts, number of short edges up to the next long edge.  Per short edge: the
     same at the two directions it can stand for (counted from the long edge before / after).
     Every edge record carries its own power-of-ten scale (offsets of one polygon can differ by
-    many orders of magnitude for very heavy tails).  Returns (contour_fields, edge_list)."""
+    many orders of magnitude for very heavy tails).  alpha: the double-precision value of the alpha
+    handed to the code; kmin / kmax: floor / ceiling of alpha (n-1) in exact arithmetic.
+    Returns (contour_fields, edge_list)."""
     V = np.asarray(coords, dtype=float)
     P = np.asarray(sample, dtype=float)
     E = len(V)
     n = len(P)
-    alpha = a / b
     finite = bool(np.isfinite(V).all()) and V.ndim == 2 and V.shape[1] == 2
     norms = np.hypot(P[:, 0], P[:, 1])
     if not finite:
@@ -276,8 +337,6 @@ def measure(coords, sample, a, b, step):
     collinear = _collinear(P)
     phi = np.full(E, np.nan)
     alt = {}                                   # long edges whose line is a tangent for BOTH normals
-    kmax = -((-a * (n - 1)) // b)              # ceil(alpha (n-1))
-    kmin = (a * (n - 1)) // b
     for j in range(E):
         if short[j]:
             continue
@@ -372,9 +431,10 @@ class Batch:
 
 def make_records(batch, ci, case, ex):
     a, b, step = case["a"], case["b"], case["deg_step"]
+    dyadic = case.get("atype", "float") == "float32"
     base = dict(kind="contour", step=step, a=a, b=b, exc=ex["exc"], finite=True, degenerate=False,
                 phis=[0], gaps=[0], defaultn=ex["defaultn"], givenn=ex["givenn"], nsample=0,
-                samplekept=ex["samplekept"], ncol=2, n=0)
+                samplekept=ex["samplekept"], ncol=2, n=0, dyadic=dyadic, nref=0, kmin=0, kmax=0)
     if ex["exc"]:
         batch.add(base, ci, "contour", -1)
         return None
@@ -383,11 +443,15 @@ def make_records(batch, ci, case, ex):
     n = len(sample)
     if a * (n - 1) > INT_MAX:
         raise Machinery("alpha numerator times sample size does not fit 32 bit")
-    base.update(nsample=n, n=n, ncol=ncol)
+    if dyadic:
+        refs = exact_refs(ex["alpha"], n)
+    else:       # alpha = a / b (the double nearest to it): the same numbers TLC derives from a, b, n
+        refs = dict(kmin=(a * (n - 1)) // b, kmax=-((-a * (n - 1)) // b), nref=(100 * b) // a)
+    base.update(nsample=n, n=n, ncol=ncol, **(refs if dyadic else {}))
     if ncol != 2:
         batch.add(base, ci, "contour", -1)
         return None
-    cf, edges = measure(coords, sample, a, b, step)
+    cf, edges = measure(coords, sample, ex["alpha"], refs["kmin"], refs["kmax"], step)
     if not cf["finite"]:
         base.update(finite=False)
         batch.add(base, ci, "contour", -1)
@@ -397,7 +461,7 @@ def make_records(batch, ci, case, ex):
         base.update(phis=cf["phis"], gaps=cf["gaps"])
     batch.add(base, ci, "contour", -1)
     for e in ([] if cf["degenerate"] else edges):
-        rec = dict(step=step, a=a, b=b, n=n)
+        rec = dict(step=step, a=a, b=b, n=n, dyadic=dyadic, kmin=base["kmin"], kmax=base["kmax"])
         rec.update({k: v for k, v in e.items() if k not in ("j", "jn")})
         batch.add(rec, ci, e["kind"], e["j"], e.get("jn", -1))
     return cf
@@ -407,6 +471,9 @@ def case_label(case):
     s = f"deg_step={case['deg_step']} cls={case['cls']} alpha={case['a']}/{case['b']} seed={case['seed']}"
     if case.get("given_n"):
         s += f" n={case['given_n']}"
+    if any(case.get(k, v) != v for k, v in PLAIN.items()):
+        s += (f" alpha_type={case.get('atype', 'float')} deg_step_type={case.get('stype', 'int')}"
+              f" sample_as={case.get('cont', 'ndarray')}")
     return s
 
 
@@ -440,7 +507,7 @@ SELFTEST_BASE = 1_000_000_000
 def selftest_records():
     """Synthetic records: the three good ones must be accepted, every corrupted copy must be
     rejected by the clause it violates (independent of the tree under test)."""
-    common = dict(step=10, a=1, b=10, n=101, lev=1_000_000)
+    common = dict(step=10, a=1, b=10, n=101, lev=1_000_000, dyadic=False, kmin=0, kmax=0)
     edge = dict(common, kind="edge", gap=0, phi=90_000_000, phin=80_000_000,
                 offa=500_000, offb=500_001, cref=499_999, clo=499_999, chi=499_999, above=10, atleast=11)
     shortr = dict(common, kind="short", offa=500_000, offb=500_000, cref=500_000, clo=500_000, chi=500_000,
@@ -448,7 +515,8 @@ def selftest_records():
                   offa2=700_000, offb2=700_000, cref2=500_000, clo2=500_000, chi2=500_000, above2=0, atleast2=0)
     cont = dict(kind="contour", step=10, a=1, b=10, exc="", finite=True, degenerate=False,
                 phis=[((90 - 10 * k) % 360) * 1_000_000 for k in range(36)], gaps=[0] * 36,
-                defaultn=True, givenn=0, nsample=1000, samplekept=True, ncol=2, n=1000)
+                defaultn=True, givenn=0, nsample=1000, samplekept=True, ncol=2, n=1000,
+                dyadic=False, nref=0, kmin=0, kmax=0)
     out = []
     k = 0
 
@@ -477,6 +545,16 @@ def selftest_records():
     put(edge, "EdgeOnTangent", clo=400_000, chi=600_000, offb=600_010)
     put(edge, "FractionBeyond", above=11)
     put(edge, "FractionBeyond", atleast=9)
+    # alpha handed over as np.float32: the exact bounds come with the record (here alpha slightly above 0.1)
+    put(edge, None, dyadic=True, kmin=10, kmax=11, above=11)
+    put(edge, "FractionBeyond", dyadic=True, kmin=10, kmax=11, above=12)
+    put(edge, "FractionBeyond", dyadic=True, kmin=11, kmax=12, atleast=10)
+    # offset tolerance: 1e-8 below the clamp of lev, 1e-6 at the clamp
+    big = dict(offa=500_000_000, cref=500_000_000, clo=500_000_000, chi=500_000_000)
+    put(edge, None, lev=1_900_000_000, offb=500_000_020, **big)
+    put(edge, "EdgeOnTangent", lev=1_900_000_000, offb=500_000_030, **big)
+    put(edge, None, lev=2_000_000_000, offb=500_002_400, **big)
+    put(edge, "EdgeOnTangent", lev=2_000_000_000, offb=500_002_600, **big)
     put(shortr, "EdgeOnTangent", offb=500_010)
     put(shortr, "FractionBeyond", above=11)
     put(shortr, None, above=11, above2=10, atleast2=10)
@@ -486,6 +564,8 @@ def selftest_records():
     put(cont, "FullCircleOnce", phis=cont["phis"] * 2, gaps=[0] * 72)     # twice round
     put(cont, "FullCircleOnce", phis=cont["phis"][::-1])                  # counter-clockwise
     put(cont, "DefaultN", nsample=1001)
+    put(cont, None, dyadic=True, nref=999, nsample=999)        # np.float32(0.1) > 0.1: int(100 / alpha) = 999
+    put(cont, "DefaultN", dyadic=True, nref=999, nsample=1000)
     put(cont, "GivenN", defaultn=False, givenn=999)
     put(cont, "SampleKept", samplekept=False)
     put(cont, "TwoColumns", ncol=3)
@@ -548,18 +628,28 @@ def expand(ctx, gen):
     reps = ctx.pick(1, 6)
     cases = []
     for rep in range(reps):
-        for g in gen:
+        for gi, g in enumerate(gen):
             seed = ctx.seed * 1000 + rep
-            rng = np.random.default_rng([seed, g["deg_step"], zlib.crc32((g["cls"] + g["alpha"]).encode())])
-            a, b = alpha_of(g["alpha"], rng, g["cls"], ctx.quick)
-            if rep == 0 and g["alpha"] == "tiny":
+            types = {k: g.get(k, v) for k, v in PLAIN.items()}
+            typed = types != PLAIN
+            if g["deg_step"] == 0:      # typed configuration: the driver rotates through all steps
+                g = dict(g, deg_step=STEPS[(gi * 7 + rep * 5 + ctx.seed) % len(STEPS)])
+            tag = g["cls"] + g["alpha"] + ("".join(types.values()) if typed else "")
+            rng = np.random.default_rng([seed, g["deg_step"], zlib.crc32(tag.encode())])
+            rq = g["cls"].endswith("default_n") and types["atype"] == "float32"
+            a, b = alpha_of(g["alpha"], rng, g["cls"], ctx.quick, round_quotient=rq)
+            if rq:
+                pass
+            elif rep == 0 and g["alpha"] == "tiny":
                 a = 1 if not ctx.quick or not g["cls"].endswith("default_n") else a   # alpha = 1e-4 exactly
-            if rep == 1 and g["alpha"] == "large":
+            elif rep == 1 and g["alpha"] == "large":
                 a, b = 3, 10                                                          # alpha = 0.3 exactly
             case = dict(deg_step=int(g["deg_step"]), cls=g["cls"], acls=g["alpha"], a=a, b=b, seed=seed)
+            if typed:
+                case.update(types)
             if g["cls"] == "model_default_n" and g["alpha"] in ("mid", "large") and rep % 2 == 1:
                 case["given_n"] = int(rng.integers(50, 4000))
-            if g["cls"].endswith("default_n"):
+            if g["cls"].endswith("default_n") and types["atype"] != "float32":
                 if int(100 / (a / b)) != (100 * b) // a:
                     continue     # float int(100/alpha) differs from the exact quotient: not decided here
             cases.append(case)
@@ -572,17 +662,24 @@ def run(ctx):
                 "model draw, default-n draw from a random model / a stub model, Gaussian cloud, lattice-"
                 "rounded cloud with ties, heavy-tailed cloud, non-convex ring, int64 / int32 / float32 arrays, Pareto(0.2), "
                 "Student t(0.25), Gaussian cloud with one point at 1e15..1e17) x alpha class "
-                "([1e-4,1e-3],[1e-3,1e-2],[1e-2,0.1],[0.1,0.3]); the driver draws seeded data (quick 1, "
-                "thorough 6 repetitions). distinct = distinct (deg_step, class, alpha, seed); non-trivial = "
+                "([1e-4,1e-3],[1e-3,1e-2],[1e-2,0.1],[0.1,0.3]) with plain Python arguments, and - for model draw, "
+                "Gaussian, tied, heavy-tailed supplied samples and both default-n classes, deg_step rotating - every "
+                "non-plain combination of the type of alpha (float, np.float64, np.float32) x type of deg_step (int, "
+                "float, np.float32) x container of the supplied sample (ndarray, pandas DataFrame, list of rows); "
+                "the driver draws seeded data (quick 1, "
+                "thorough 6 repetitions). distinct = distinct (deg_step, class, alpha, types, seed); non-trivial = "
                 "finite polygon with at least N/2 edges long enough to measure their direction")
     ctx.trusted = ["TLC 1.8 evaluating spec/Trace_C03.tla / spec/DirectSampling.tla",
                    "harness/c03.py measure(): edge normals by atan2 of the end-point difference, outward = "
                    "minority side of the sample, projections, order statistics via numpy.partition and "
-                   "hand-written linear interpolation at index (n-1)(1-alpha), counts",
+                   "hand-written linear interpolation at index (n-1)(1-alpha) in double precision with "
+                   "alpha = float(the alpha handed over), counts",
+                   "fractions.Fraction for floor / ceiling of alpha (n-1) and floor(100 / alpha) of a single-precision alpha",
                    "fixed-point projection Q/Qc with a per-contour power-of-ten scale"]
     ctx.assumptions = ["edges shorter than 1e-4 of the polygon size have no measurable direction; they are "
                        "assigned the predecessor's normal minus one step and judged at that direction",
-                       "default-n cases use only alpha = a/b with int(100/alpha) == floor(100 b / a)",
+                       "default-n cases with a double-precision alpha use only alpha = a/b with int(100/alpha) == "
+                       "floor(100 b / a); a single-precision alpha is the real number float(alpha), n = floor(100 / alpha)",
                        "samples whose polygon has no measurable edge at all (degenerate) are not judged"]
     # M
     cfg = ctx.pick("MC_DirectSampling_quick.cfg", "MC_DirectSampling_thorough.cfg")
@@ -593,7 +690,7 @@ def run(ctx):
     ctx.model_check("DirectSampling", "MC_DirectSampling_shift.cfg", expect_violation="AllAdjacent")
     # R
     gen = ctx.generate("DirectSamplingGen", "Gen_DirectSampling.cfg")
-    gen.sort(key=lambda g: (g["deg_step"], g["cls"], g["alpha"]))
+    gen.sort(key=lambda g: (g["deg_step"], g["cls"], g["alpha"], g["atype"], g["stype"], g["cont"]))
     cases = expand(ctx, gen)
     # V
     batch, cfs, extras = judge(ctx, vc, cases, "generated cases", selftest=True)
